@@ -151,3 +151,124 @@ Proof.
   destruct ((128 <=? b3) && (b3 <? 192)) eqn:E3; [|lia].
   destruct (b1 <? 144) eqn:E4; lia.
 Qed.
+
+(* ---- torn multi-byte tails ------------------------------------------------- *)
+Lemma is_cont_ascii b : b < 128 -> is_cont b = false.
+Proof. unfold is_cont. lia. Qed.
+
+Lemma ok2_3_ascii b0 b : b < 128 -> ok2_3 b0 b = false.
+Proof. intros H. unfold ok2_3. now rewrite is_cont_ascii. Qed.
+
+Lemma ok2_4_ascii b0 b : b < 128 -> ok2_4 b0 b = false.
+Proof. intros H. unfold ok2_4. now rewrite is_cont_ascii. Qed.
+
+(* shape of the encodings *)
+Lemma enc_shape c :
+  is_scalar c = true ->
+  (c < 128 /\ utf8_enc_cp c = [c]) \/
+  (exists b0 b1, utf8_enc_cp c = [b0; b1] /\ 194 <= b0 < 224 /\ is_cont b1 = true) \/
+  (exists b0 b1 b2, utf8_enc_cp c = [b0; b1; b2] /\ 224 <= b0 < 240 /\ ok2_3 b0 b1 = true /\ is_cont b2 = true) \/
+  (exists b0 b1 b2 b3, utf8_enc_cp c = [b0; b1; b2; b3] /\ 240 <= b0 < 245 /\ ok2_4 b0 b1 = true /\
+                       is_cont b2 = true /\ is_cont b3 = true).
+Proof.
+  intros Hs. apply is_scalar_spec in Hs. unfold utf8_enc_cp.
+  destruct (c <? 128) eqn:E1; [left; split; [lia|reflexivity]|right].
+  destruct (c <? 2048) eqn:E2.
+  { left. eexists _, _. split; [reflexivity|]. unfold is_cont. split; lia. }
+  right. destruct (c <? 65536) eqn:E3.
+  { left. eexists _, _, _. split; [reflexivity|]. unfold ok2_3, is_cont.
+    split; [lia|]. split; [|lia].
+    destruct (128 + (c / 64) mod 64 <? 160) eqn:T; lia. }
+  right. eexists _, _, _, _. split; [reflexivity|]. unfold ok2_4, is_cont.
+  split; [lia|]. split; [|split; lia].
+  destruct (128 + (c / 4096) mod 64 <? 144) eqn:T; lia.
+Qed.
+
+Ltac lead_tests b0 :=
+  repeat match goal with
+         | |- context [b0 <? ?k] => let T := fresh "T" in destruct (b0 <? k) eqn:T; try lia
+         end.
+
+(* A multi-byte sequence cut after 1..3 bytes and followed by an ASCII byte b
+   (in a history file: the "\n" of the next write) decodes to ONE U+FFFD, and
+   decoding resumes AT b: the byte is not swallowed.  At the end of the data
+   the cut sequence alone gives one U+FFFD. *)
+Theorem torn_tail_dec c q q' b rest :
+  is_scalar c = true -> utf8_enc_cp c = q ++ q' -> q <> [] -> q' <> [] -> b < 128 ->
+  utf8_dec (q ++ b :: rest) = REPL :: utf8_dec (b :: rest) /\ utf8_dec q = [REPL].
+Proof.
+  intros Hs E Hq Hq' Hb.
+  pose proof (is_cont_ascii b Hb) as Hc.
+  destruct (enc_shape c Hs) as [[_ H]|[(b0 & b1 & H & R0 & C1)|[(b0 & b1 & b2 & H & R0 & O1 & C2)|(b0 & b1 & b2 & b3 & H & R0 & O1 & C2 & C3)]]];
+    rewrite H in E.
+  - destruct q as [|x [|y q]]; [congruence| |discriminate E]. cbn [app] in E. injection E as _ E. now destruct Hq'.
+  - destruct q as [|x [|y [|z q]]]; [congruence| | |discriminate E]; cbn [app] in E.
+    + injection E as E0 _; subst x. cbn [app utf8_dec]. lead_tests b0. rewrite Hc. auto.
+    + injection E as _ _ E. now destruct Hq'.
+  - destruct q as [|x [|y [|z [|w q]]]]; [congruence| | | |discriminate E]; cbn [app] in E.
+    + injection E as E0 _; subst x. cbn [app utf8_dec]. lead_tests b0. rewrite (ok2_3_ascii b0 b Hb). auto.
+    + injection E as E0 E1 _; subst x y. cbn [app utf8_dec]. lead_tests b0. rewrite O1, Hc. auto.
+    + injection E as _ _ _ E. now destruct Hq'.
+  - destruct q as [|x [|y [|z [|w [|v q]]]]]; [congruence| | | | |discriminate E]; cbn [app] in E.
+    + injection E as E0 _; subst x. cbn [app utf8_dec]. lead_tests b0. rewrite (ok2_4_ascii b0 b Hb). auto.
+    + injection E as E0 E1 _; subst x y. cbn [app utf8_dec]. lead_tests b0. rewrite O1, Hc. auto.
+    + injection E as E0 E1 E2 _; subst x y z. cbn [app utf8_dec]. lead_tests b0. rewrite O1, C2, Hc. auto.
+    + injection E as _ _ _ _ E. now destruct Hq'.
+Qed.
+
+(* ... after any encodable text, as it happens in a history line *)
+Corollary torn_line_dec s c q q' rest :
+  forallb is_scalar s = true -> is_scalar c = true ->
+  utf8_enc_cp c = q ++ q' -> q <> [] -> q' <> [] ->
+  utf8_dec (utf8_enc_raw s ++ q ++ 10 :: rest) = s ++ REPL :: 10 :: utf8_dec rest /\
+  utf8_dec (utf8_enc_raw s ++ q) = s ++ [REPL].
+Proof.
+  intros Hs Hc E Hq Hq'.
+  destruct (torn_tail_dec c q q' 10 rest Hc E Hq Hq') as [H1 H2]; [lia|].
+  rewrite !dec_enc by assumption. rewrite H1, H2.
+  rewrite dec_head_ascii by lia. auto.
+Qed.
+
+(* The decoder is a total function by construction; it never produces more
+   characters than it reads bytes and never produces nothing from something. *)
+Lemma dec_length_aux n : forall bs, (length bs <= n)%nat ->
+  (length (utf8_dec bs) <= length bs)%nat /\ (bs <> [] -> utf8_dec bs <> []).
+Proof.
+  induction n as [|n IH]; intros bs Hn.
+  - destruct bs; [split; [cbn; lia|congruence]|cbn in Hn; lia].
+  - destruct bs as [|b0 r]; [split; [cbn; lia|congruence]|].
+    cbn [length] in Hn.
+    assert (IHr : forall x, (length x <= length r)%nat -> (length (utf8_dec x) <= length x)%nat).
+    { intros x Hx. apply IH. lia. }
+    split; [|cbn [utf8_dec];
+             repeat match goal with
+                    | |- context [if ?t then _ else _] => destruct t
+                    | |- context [match ?l with [] => _ | _ :: _ => _ end] => destruct l
+                    end; discriminate].
+    cbn [utf8_dec].
+    destruct (b0 <? 128); [cbn [length]; specialize (IHr r); lia|].
+    destruct (b0 <? 194); [cbn [length]; specialize (IHr r); lia|].
+    destruct (b0 <? 224).
+    { destruct r as [|b1 r1]; [cbn; lia|]. destruct (is_cont b1); cbn [length] in *.
+      - specialize (IHr r1). cbn [length] in IHr. lia.
+      - specialize (IHr (b1 :: r1)). cbn [length] in IHr. lia. }
+    destruct (b0 <? 240).
+    { destruct r as [|b1 r1]; [cbn; lia|]. destruct (ok2_3 b0 b1); cbn [length] in *.
+      - destruct r1 as [|b2 r2]; [cbn; lia|]. destruct (is_cont b2); cbn [length] in *.
+        + specialize (IHr r2). cbn [length] in IHr. lia.
+        + specialize (IHr (b2 :: r2)). cbn [length] in IHr. lia.
+      - specialize (IHr (b1 :: r1)). cbn [length] in IHr. lia. }
+    destruct (b0 <? 245).
+    { destruct r as [|b1 r1]; [cbn; lia|]. destruct (ok2_4 b0 b1); cbn [length] in *.
+      - destruct r1 as [|b2 r2]; [cbn; lia|]. destruct (is_cont b2); cbn [length] in *.
+        + destruct r2 as [|b3 r3]; [cbn; lia|]. destruct (is_cont b3); cbn [length] in *.
+          * specialize (IHr r3). cbn [length] in IHr. lia.
+          * specialize (IHr (b3 :: r3)). cbn [length] in IHr. lia.
+        + specialize (IHr (b2 :: r2)). cbn [length] in IHr. lia.
+      - specialize (IHr (b1 :: r1)). cbn [length] in IHr. lia. }
+    cbn [length]. specialize (IHr r). lia.
+Qed.
+
+Theorem dec_total bs :
+  (length (utf8_dec bs) <= length bs)%nat /\ (bs <> [] -> utf8_dec bs <> []).
+Proof. apply (dec_length_aux (length bs)). lia. Qed.
